@@ -110,10 +110,72 @@ def p_C13(ctx):
     flow_trace(ctx, "conv", 10 ** 9, 10 ** 9, chunk=4000)
 
 
+def twist_file(ctx, npts):
+    return ensure_gen(f"twist-{ctx.seed}-{npts}.json", "GenTwist", extra_env={"SEED": str(ctx.seed), "NPTS": str(npts)})
+
+
+def p_C04(ctx):
+    flow_trace(ctx, "group", 6000, 120000, chunk=500, extra=["--focus", "law"])
+
+
+def p_C05(ctx):
+    flow_trace(ctx, "group", 3000, 60000, chunk=250, extra=["--focus", "mul"])
+
+
+def p_C15(ctx):
+    flow_trace(ctx, "group", 6000, 120000, chunk=500, extra=["--focus", "eq"])
+
+
+def p_C10(ctx):
+    flow_trace(ctx, "encode", 3000, 60000, chunk=300)
+
+
+def p_C08(ctx):
+    a = flow_trace(ctx, "decode", 10 ** 9, 10 ** 9, profile="release", chunk=700)
+    b = flow_trace(ctx, "decode", 10 ** 9, 10 ** 9, profile="dev", chunk=700)
+    compare_profiles(ctx, "decode", a, b)
+
+
+def p_C09(ctx):
+    tw = twist_file(ctx, 6 if ctx.quick() else 40)
+    flow_trace(ctx, "affine", 10 ** 9, 10 ** 9, chunk=60, extra=["--in", tw])
+
+
+def p_C14(ctx):
+    flow_trace(ctx, "sqrt", 4000, 80000, chunk=400)
+
+
+def compare_profiles(ctx, suite, a, b):
+    """C08/C18: the same driver source built twice must record the same events (field by field)."""
+    n = 0
+    with open(a) as fa, open(b) as fb:
+        la, lb = fa.readlines(), fb.readlines()
+    if len(la) != len(lb):
+        ctx.violations.append({"flow": "P", "suite": suite, "op": "profile-length", "why": "profile-divergence",
+                               "event": {"op": "profile-length", "release": len(la), "dev": len(lb)}, "params": {"suite": suite, "seed": ctx.seed, "tier": ctx.tier}})
+    for x, y in zip(la, lb):
+        if x != y:
+            n += 1
+            if n <= 20:
+                ex, ey = json.loads(x), json.loads(y)
+                ctx.violations.append({"flow": "P", "suite": suite, "op": ex.get("op"), "why": "profile-divergence",
+                                       "event": {"op": ex.get("op"), "release": ex, "dev": ey},
+                                       "params": {"suite": suite, "seed": ctx.seed, "tier": ctx.tier, "n": 10 ** 9, "extra": []}})
+    ctx.flows.append({"flow": "P", "suite": suite, "compared": min(len(la), len(lb)), "divergent": n})
+    ctx.classes[f"profile-compared-{suite}"] = min(len(la), len(lb))
+
+
 PROPS = {
+    "C04": p_C04,
+    "C05": p_C05,
     "C06": p_C06,
+    "C08": p_C08,
+    "C09": p_C09,
+    "C10": p_C10,
     "C12": p_C12,
     "C13": p_C13,
+    "C14": p_C14,
+    "C15": p_C15,
 }
 
 HOOK_COMMITS = []
@@ -122,6 +184,20 @@ TV = "trace validation against an executable TLA+ specification (TLC)"
 META = {
     "C06": {"technique": TV + " of Fq/Fr operations in every operator form on TLC-generated Montgomery-boundary operand pools",
             "text": "Every recorded Fq/Fr operation (all six operator forms, neg, inverse, pow, is_zero, is_even, ==) is recomputed by TLC from the logged canonical encodings with the Level-A field specification (integers mod q / r) and must match byte for byte; operands come from a TLC-generated pool of values whose Montgomery limbs sit on carry boundaries, designated pairs summing to p and 2^256 in the Montgomery domain, and random values. Sampling at 256 bits, exhaustive only in the scaled-down Level-B model."},
+    "C04": {"technique": TV + " of G1/G2 add/sub/neg on every relation x representation combination, against the affine chord-and-tangent law",
+            "text": "Recorded G1/G2 additions, subtractions, negations and commutativity/associativity/neutrality triples, with operands in every representation (z=1, library Jacobian, lambda-rescaled through G::new, identity as (0,1,0), as (x,y,0) left by P-P and as arbitrary (x,y,0)) and every relation (independent, equal, opposite, identity on either side, doubled), are abstracted by the specification itself (x/z^2, y/z^3 in TLA+) and compared with the textbook affine law; every result triple must satisfy y^2 = x^3 + b z^6; sampled events also check the logged discrete logarithms by textbook double-and-add."},
+    "C05": {"technique": TV + " of P*k and k*P against affine double-and-add evaluated by TLC",
+            "text": "Recorded scalar multiplications (both operand orders) with boundary scalars (0, 1, 2, r-1, r-2, (r+-1)/2, 2^i, 2^i-1, long runs, Montgomery-boundary pool, random) on points in every representation including identity forms are recomputed by TLC with affine double-and-add; module laws ((s+t)P, (st)P, 0P, 1P, (r-1)P, (r-1)P+P = O) are checked between recorded results and against the specification."},
+    "C08": {"technique": TV + " of all six point decoders and Fq2::from_slice on malformed inputs, recorded under both build profiles",
+            "text": "Every decoder is run on every length 0..140 (three fills), valid encodings offered to every decoder, truncations/extensions, single-bit and single-byte corruptions, prefix bytes, coordinate limbs replaced by limb+q, q and 2^256-1, small x with x+q, random x; TLC decides each input with the acceptance predicate of the specification (length, prefix, limbs below q, on curve, [r]P = O for G2, re-encoding equals input). The same inputs are recorded by the release and the debug-assertion builds of the same driver; the two traces must be identical, contain no panic, and both are validated."},
+    "C09": {"technique": "TLC-generated twist points (Tonelli-Shanks, cofactor clearing) replayed into AffineG1/AffineG2::new and the G2 decoders; verdicts validated by TLC",
+            "text": "TLC computes with the Level-A specification random points of the twist (order r*h), cofactor-cleared points, points of order 13, 1621 and dividing 13*1621, sums of a subgroup and a small-order point, near misses, points of other curves and on/off-curve pairs for G1; the real constructors and G2 decoders are run on them and TLC checks each verdict against OnCurve and [r]P = O."},
+    "C10": {"technique": TV + " of the three encoders against the SM9 byte formats of the textbook coordinates",
+            "text": "For P = k*generator and -P (both parities of y) in representations A, J, S the recorded raw / 0x04 / 0x02-0x03 encodings must equal the specification's encoding of the abstract point (imaginary part first, parity of the real part), decode back to the same point, and anchor events compare the abstract point with the textbook k*P computed by TLC."},
+    "C14": {"technique": TV + " of Fq::sqrt / Fq2::sqrt (soundness by squaring, completeness by the Euler criterion evaluated by TLC)",
+            "text": "Recorded square roots of 0, 1, -1, -2, small integers and their negatives, squares, negated squares, arbitrary elements, zero-imaginary and purely imaginary Fq2 elements, squares and squares times the non-square u: Some(s) must satisfy s*s = x and None must coincide with the Euler criterion (x^((q^2-1)/2) in Fq2) evaluated by TLC; compressed decoding of x-coordinates of real points must succeed for both prefixes."},
+    "C15": {"technique": TV + " of ==, normalize and affine conversion on every representation pair",
+            "text": "Recorded equality tests (with reverse and reflexive), normalisations and affine round trips on operands in every representation and relation (equal point/other representative, opposite, identity forms, rescaled by -1) are compared with equality of the abstract points computed by the specification; normalize must yield z = 1 for non-identity points."},
     "C12": {"technique": TV + " of Fq2 operations against Fq[u]/(u^2+2)",
             "text": "Every recorded Fq2 operation (all operator forms, neg, parts, new, from_slice, ==, ring laws, and the doubling of (x,y,1) observed through G2 accessors) is recomputed by TLC in Fq[u]/(u^2+2) from the logged encodings; components from the boundary pool, zero components and random values."},
     "C13": {"technique": TV + " of byte/decimal/hash conversions and set_bit against n mod p",
@@ -143,7 +219,11 @@ def run_property(pid, tier, seed):
     seen_known = {}
     lines = []
     reported = 0
+    vclasses = {}
     for v in ctx.violations:
+        e0 = v.get("event") or {}
+        key = "/".join(str(x) for x in (v.get("op"), v.get("why"), e0.get("G"), e0.get("F"), e0.get("fmt"), e0.get("v")) if x is not None)
+        vclasses[key] = vclasses.get(key, 0) + 1
         k = match_known(known, pid, v.get("event") or {})
         if k is not None:
             seen_known.setdefault(k["id"], [k, 0])
@@ -164,6 +244,7 @@ def run_property(pid, tier, seed):
         "samples": ctx.samples[:6] if ctx.samples else [],
         "flows": ctx.flows, "models": ctx.models, "input_classes": ctx.classes,
         "known_findings_seen": {k: c for k, (_, c) in seen_known.items()},
+        "violation_classes": vclasses,
         "exhaustive": False,
     }
     if not cov["samples"] or cov["states"] < 1 or cov["transitions"] < 1:
